@@ -70,7 +70,7 @@ var c02Catalogue = []string{
 func (c02) ID() string    { return "C02" }
 func (c02) Level() string { return "fault_enumeration" }
 func (c02) Rule() string {
-	return "enumerates the impostor catalogue (untrusted CA, expired, not yet valid, wrong name, single certificate, swapped, mixed CAs; ServerKeyExchange signed by another key / over other randoms / over another certificate or other ECDH parameters / corrupted / empty / omitted; no encryption key; ServerKeyExchange signed with the encryption key; no keys at all; unverified session resumed under a verifying configuration; a session resumed by a configuration with another ServerName; a key-less peer resuming with an all-zero master secret after an honest resumption; a control whose Config.Rand hands out 3 bytes per call (the hello's random must be filled); certificates that were in date at an earlier successful connection and are expired at the time now configured, with and without a cached session) x 4 suites x InsecureSkipVerify on/off x both stacks, plus honest controls; thorough repeats it under many seeds (segmentation, schedules, fresh randoms). A scripted server built on the independent reference implementation plays the impostor against a real client and keeps its transcript and keys consistent. Also (after-session:x): the client holds a session from an honest connection to the address and offers it; the peer declines and does a full handshake as impostor x (honest control, untrusted CA, mixed CA, expired, swapped, single certificate, other signing key, no encryption key). distinct = distinct (stack, suite, verify flag, impostor, outcome); non-trivial = the scripted flow reached the deviating step"
+	return "enumerates the impostor catalogue (untrusted CA, expired, not yet valid, wrong name, single certificate, swapped, mixed CAs; ServerKeyExchange signed by another key / over other randoms / over another certificate or other ECDH parameters / corrupted / empty / omitted; no encryption key; ServerKeyExchange signed with the encryption key; no keys at all; unverified session resumed under a verifying configuration; a session resumed by a configuration with another ServerName; a key-less peer resuming with an all-zero master secret after an honest resumption; a control whose Config.Rand hands out 3 bytes per call (the hello's random must be filled); certificates that were in date at an earlier successful connection and are expired at the time now configured, with and without a cached session) x 4 suites x InsecureSkipVerify on/off x both stacks, plus honest controls; thorough repeats it under many seeds (segmentation, schedules, fresh randoms). A scripted server built on the independent reference implementation plays the impostor against a real client and keeps its transcript and keys consistent. Also (after-session:x): the client holds a session from an honest connection to the address and offers it; the peer declines and does a full handshake as impostor x (honest control, untrusted CA, mixed CA, expired, swapped, single certificate, other signing key, no encryption key). Impostor forged-ca-enc: genuine signing certificate (key held) with an encryption certificate from a CA that copies the trusted CA's subject name and subject key identifier under another key. distinct = distinct (stack, suite, verify flag, impostor, outcome); non-trivial = the scripted flow reached the deviating step"
 }
 func (c02) Components() (real, stub []string) {
 	return []string{"tlcp/dtlcp client (instrumented): certificate verification, key agreement checks, Finished check, session cache"},
